@@ -592,28 +592,51 @@ fn space_specs(thorough: bool) -> Vec<String> {
 	for s in gen.iter().chain(corpus.iter()) {
 		v.push(format!("fields:{s}"));
 		v.push(format!("trunc:{s}"));
+		v.push(format!("utf8:{s}"));
+	}
+	// every byte of the seed / every short string in every Utf8 constant: all generated seeds; corpus: the quick selection
+	let quick_corpus = spaces::corpus_seed_names(false);
+	for s in gen.iter().chain(quick_corpus.iter()) {
+		v.push(format!("bytes:{s}"));
+		v.push(format!("utf8s:{s}"));
 	}
 	if thorough {
-		for s in ["ks0e0", "ks1e0", "ks2e0", "ks2e2", "mod02", "mod12"] {
+		for s in ["ks0e0", "ks1e0", "ks2e0", "ks2e2", "mod02", "mod12", "cldc", "utf9"] {
 			v.push(format!("pairs:{s}"));
 		}
 		for s in corpus.iter().take(40) {
 			v.push(format!("pairs:{s}"));
 		}
+	} else {
+		// two small seeds of the pair space already in the quick tier
+		for s in ["cldc", "mod02"] {
+			v.push(format!("pairs:{s}"));
+		}
 	}
 	for p in [P::Tiny2, P::Tiny3, P::TinyDiff, P::Enigma, P::Nests] {
-		v.push(format!("lines:{}:raw", p.name()));
-		if texts::header(p).is_some() {
-			v.push(format!("lines:{}:header", p.name()));
+		for mode in if texts::header(p).is_some() { &["raw", "header"][..] } else { &["raw"][..] } {
+			v.push(format!("lines:{}:{mode}", p.name()));
+			v.push(format!("linesx:{}:{mode}:4", p.name()));
+			if thorough {
+				v.push(format!("linesx:{}:{mode}:5", p.name()));
+			}
 		}
 		for k in 0..texts::seeds(p).len() {
 			v.push(format!("tokens:{}:{k}", p.name()));
 			v.push(format!("ttrunc:{}:{k}", p.name()));
+			v.push(format!("tedit:{}:{k}", p.name()));
+			v.push(format!("chars:{}:{k}:full:0:2", p.name()));
+			v.push(format!("chars:{}:{k}:core:3:3", p.name()));
+			if thorough {
+				v.push(format!("chars:{}:{k}:full:3:3", p.name()));
+				v.push(format!("chars:{}:{k}:core:4:4", p.name()));
+			}
 		}
 	}
-	let max_len = if thorough { 6 } else { 5 };
+	let (max_len, letters_len) = if thorough { (6, 4) } else { (5, 3) };
 	for p in [P::DescField, P::DescMethod, P::DescReturn] {
 		v.push(format!("desc:{}:{max_len}", p.name()));
+		v.push(format!("descl:{}:{letters_len}", p.name()));
 	}
 	v
 }
@@ -889,7 +912,7 @@ fn main() {
 			"(e) line_sequences": "every sequence of 0..=3 lines over the parser's line alphabet, raw and (tiny formats) after a valid header",
 			"(e) line_alphabet_sizes": line_alpha_sizes,
 			"(e) token_replacements": texts::replacements().len(),
-			"(e) descriptor_alphabet": String::from_utf8_lossy(spaces::DESC_ALPHABET),
+			"(e) descriptor_alphabet": spaces::DESC_ALPHABET.iter().map(|s| String::from_utf8_lossy(s).into_owned()).collect::<Vec<_>>(),
 			"(e) descriptor_max_len": if thorough { 6 } else { 5 },
 			"class_seeds_generated": spaces::class_seed_names(thorough),
 			"class_seeds_corpus": spaces::corpus_seed_names(thorough).len(),
